@@ -33,6 +33,16 @@ def gen_world(rng, i, tier):
         name = rng.pick(BORROW)
         mod = importlib.import_module("lesim.props." + name)
         w = {"scenario": "borrowed", "from": name, "inner": mod.gen_world(rng, i, tier), "fills": rng.sample(FILLS, 2)}
+        if name == "c07" and w["inner"].get("src") == "parsed" and w["inner"].get("lines") and rng.chance(0.4):
+            # a comment block longer than the 8 KiB stdio buffer in front of one entry (what the comment reads back as
+            # is C14's subject; who owns its memory while it is written is this property's)
+            inner = w["inner"]
+            ents = [k for k, (kind, _) in enumerate(inner["lines"]) if kind in ("entry", "entry_plain")]
+            if ents:
+                at = rng.pick(ents)
+                block = [["comment", inner["c"] + " " + "long comment %03d " % n + "x" * 60] for n in range(rng.pick([110, 130, 260]))]
+                inner["lines"] = inner["lines"][:at] + block + inner["lines"][at:]
+                w["long_comment"] = True
         w["cfg"] = w["inner"].get("cfg", {})
         return w
     if rng.chance(0.25):
@@ -205,6 +215,8 @@ def check(world, plans, results):
         v.nontrivial = True
         v.sig = sig_of("borrowed", world["from"], len(results), sum(len(r.get("ops", [])) for r in results) // 8)
         v.probe("borrowed_" + world["from"])
+        if world.get("long_comment"):
+            v.probe("comment_block_longer_than_BUFSIZ_written")
         v.probe("executions", len(results))
         return v
     if world["scenario"] == "history":
